@@ -4,9 +4,18 @@
 From FS Require Import Sexp.
 
 Definition M6 : Z := 1000000.
-Definition floor_sec (t : Z) : Z := (t / M6) * M6.              (* pc.floor_temporal(ts, unit="second") *)
-Definition epoch (t : Z) : Z := floor_sec t / M6.               (* pc.divide(..., 1_000_000) *)
-Definition fraction (t : Z) : Z := (t - floor_sec t) * 1000.    (* integer nanoseconds within the second *)
+(* pyarrow.compute on int64 microsecond values, as arrow.py uses them (that pyarrow itself behaves like this is what the C17 run compares
+   on thousands of timestamps); the body of timestamp_to_sf_struct is re-read from arrow.py on every run, emitted in these combinators and
+   proved equal to epoch / fraction below (generated theorem arrow_matches_source) *)
+Definition pa_floor_second (t : Z) : Z := (t / M6) * M6.         (* pc.floor_temporal(ts, unit="second") *)
+Definition pa_divide (a b : Z) : Z := Z.quot a b.                 (* pc.divide on integers truncates *)
+Definition pa_multiply (a b : Z) : Z := a * b.
+Definition pa_subtract (a b : Z) : Z := a - b.
+Definition pa_add (a b : Z) : Z := a + b.
+Definition pa_int32 (a : Z) : Z := a.                             (* .cast(pa.int32()): must not overflow - fraction_fits_int32 *)
+Definition floor_sec (t : Z) : Z := pa_floor_second t.
+Definition epoch (t : Z) : Z := pa_divide (pa_floor_second t) 1000000.
+Definition fraction (t : Z) : Z := pa_int32 (pa_multiply (pa_subtract t (pa_floor_second t)) 1000).    (* integer nanoseconds within the second *)
 (* the connector: seconds + nanoseconds -> microseconds *)
 Definition decode_ts (e f : Z) : Z := e * M6 + f / 1000.
 
